@@ -38,8 +38,15 @@ func runC32(c *core.Ctx) {
 			id := an.CalleeID(ci)
 			switch id {
 			case rp + ".Raft.AddVoter", rp + ".Raft.AddNonvoter", rp + ".Raft.RemoveServer", rp + ".Raft.BootstrapCluster", rp + ".Raft.DemoteVoter", rp + ".RecoverCluster", rp + ".BootstrapCluster", rp + ".Raft.AddPeer", rp + ".Raft.RemovePeer":
-				n := core.FuncName(an.TopFunc(fn))
-				muts[n] = append(muts[n], strings.TrimPrefix(strings.TrimPrefix(id, rp+".Raft."), rp+"."))
+				for _, n := range accountable(c, fn, func(n string) bool {
+					switch n {
+					case "(*store.Store).Join", "(*store.Store).remove", "(*store.Store).Bootstrap", "(*store.Store).Notify":
+						return true
+					}
+					return false
+				}) {
+					muts[n] = append(muts[n], strings.TrimPrefix(strings.TrimPrefix(id, rp+".Raft."), rp+"."))
+				}
 			}
 		})
 	}
